@@ -135,7 +135,21 @@ def runCase (s : GState) : String :=
   let corr : String :=
     if !haveToks then "skip"
     else match drv with
-      | .glr => "skip"
+      | .glr =>
+        -- a cell with several actions: all runs of the table + the select_tree comparison
+        if symToks.length > 300 then "skip" else
+        let all := parseAll tbl symToks
+        match selectBest all, real with
+        | none, none => "ok"
+        | none, some _ => "glr-model-rejects-real-accepts"
+        | some _, none => if s.err then "glr-model-accepts-real-rejects" else "no-real-tree"
+        | some b, some d =>
+          let fb := flat tbl (ofPTree b)
+          let ties := all.filter fun t => t.dynPrec == b.dynPrec && !(flat tbl (ofPTree t) == fb)
+          if !ties.isEmpty then "skip"      -- decided by ts_subtree_compare, not modelled
+          else match diffS fb (flat tbl (ofDump d.root)) [] with
+            | none => "ok"
+            | some m => s!"glr-tree:{m}"
       | .fuelOut => "skip"
       | .fault f => if s.closed then s!"model-fault-on-closed-table:{repr f}" else "skip"
       | .rejected _ => if s.err then "ok" else "model-rejects-real-accepts"
